@@ -83,7 +83,8 @@ func parsePipeExpr(expr string) pipeExpr {
 	// Operators and pipe characters inside quoted strings are text, not syntax:
 	// they are looked for in a copy whose quoted parts are blanked out.
 	masked := maskQuoted(expr)
-	if helpers.IsComplexExpr(strings.TrimSpace(masked)) {
+	pipes := pipePositions(masked)
+	if len(pipes) == 0 && helpers.IsComplexExpr(strings.TrimSpace(masked)) {
 		return pipeExpr{
 			initial: "",
 			segments: []pipeSegment{{
@@ -93,7 +94,7 @@ func parsePipeExpr(expr string) pipeExpr {
 		}
 	}
 
-	if !strings.Contains(masked, "|") {
+	if len(pipes) == 0 {
 		// Check if it's a function call (including no-arg functions like "fn()")
 		if matches := filterRe.FindStringSubmatch(trimmed); matches != nil && matches[1] != "" {
 			return pipeExpr{
@@ -110,14 +111,14 @@ func parsePipeExpr(expr string) pipeExpr {
 		return pipeExpr{initial: trimmed}
 	}
 
-	// Split at the pipe characters that are outside quotes
+	// Split at the pipe characters that are outside quotes and parentheses; what
+	// stands before the first one is the initial value - a variable, a literal,
+	// a call or an operator expression
 	var parts []string
 	last := 0
-	for i := 0; i < len(masked); i++ {
-		if masked[i] == '|' {
-			parts = append(parts, expr[last:i])
-			last = i + 1
-		}
+	for _, i := range pipePositions(masked) {
+		parts = append(parts, expr[last:i])
+		last = i + 1
 	}
 	parts = append(parts, expr[last:])
 	firstPart := strings.TrimSpace(parts[0])
@@ -135,10 +136,39 @@ func parsePipeExpr(expr string) pipeExpr {
 	return result
 }
 
+// pipePositions returns the positions of the pipe characters of a (masked)
+// expression: a single | outside parentheses and brackets. The two characters
+// of the || operator are not pipes.
+func pipePositions(masked string) []int {
+	var pos []int
+	depth := 0
+	for i := 0; i < len(masked); i++ {
+		switch masked[i] {
+		case '(', '[':
+			depth++
+		case ')', ']':
+			if depth > 0 {
+				depth--
+			}
+		case '|':
+			if i+1 < len(masked) && masked[i+1] == '|' {
+				i++ // the || operator
+				continue
+			}
+			if depth == 0 {
+				pos = append(pos, i)
+			}
+		}
+	}
+	return pos
+}
+
 // classifySegment determines if a pipe segment is a filter call or expression
 func classifySegment(part string) pipeSegment {
-	// Check for complex expression operators first (outside quoted strings)
-	if helpers.IsComplexExpr(maskQuoted(part)) {
+	// Check for complex expression operators first (outside quoted strings);
+	// operators inside the argument list of a single call - fn(n + 1) - belong
+	// to the arguments
+	if masked := maskQuoted(part); helpers.IsComplexExpr(masked) && !isSingleCall(masked) {
 		return pipeSegment{
 			typ:  segmentExpr,
 			expr: part,
@@ -167,6 +197,29 @@ func classifySegment(part string) pipeSegment {
 		typ:  segmentExpr,
 		expr: part,
 	}
+}
+
+// isSingleCall reports whether the (masked) text is one call, name(...), whose
+// closing parenthesis is the last character.
+func isSingleCall(masked string) bool {
+	masked = strings.TrimSpace(masked)
+	open := strings.IndexByte(masked, '(')
+	if open <= 0 || !helpers.IsIdentifier(masked[:open]) {
+		return false
+	}
+	depth := 0
+	for i := open; i < len(masked); i++ {
+		switch masked[i] {
+		case '(':
+			depth++
+		case ')':
+			depth--
+			if depth == 0 {
+				return i == len(masked)-1
+			}
+		}
+	}
+	return false
 }
 
 // maskQuoted returns s with the content of quoted strings (and the quotes)
@@ -255,6 +308,14 @@ func (v *Vue) evalPipe(ctx VueContext, expr pipeExpr) (any, error) {
 	var val any
 	var ok bool
 	val, ok = ctx.stack.Resolve(expr.initial)
+	if !ok && !helpers.IsVariablePath(expr.initial) {
+		// Not a variable: a literal ("Hello", 5), a call or an operator expression
+		result, err := v.exprEval.Eval(expr.initial, v.exprEnv(ctx))
+		if err != nil {
+			return nil, fmt.Errorf("in expression '%s': %w", expr.initial, err)
+		}
+		val, ok = result, true
+	}
 	if !ok {
 		if len(expr.segments) > 0 {
 			val = nil // Pass nil to first segment filter
